@@ -23,7 +23,16 @@ const prelude = `(set-option :produce-models true)
 (assert (forall ((b Int) (k Int)) (! (and (<= 0 (memB b k)) (< (memB b k) 256)) :pattern ((memB b k)))))
 (define-fun wfS ((s Slice)) Bool (and (<= 0 (sbase s)) (<= 0 (soff s)) (<= 0 (slen s)) (<= (slen s) (scap s)) (<= (scap s) 281474976710656) (<= (soff s) 281474976710656)))
 (assert (forall ((b Int) (k Int)) (! (wfS (memS b k)) :pattern ((memS b k)))))
-(define-fun bytesEq ((a Slice) (b Slice)) Bool (and (= (slen a) (slen b)) (forall ((k Int)) (=> (and (<= 0 k) (< k (slen a))) (= (memB (sbase a) (+ (soff a) k)) (memB (sbase b) (+ (soff b) k)))))))
+(declare-fun bytesEq (Slice Slice) Bool)
+(assert (forall ((a Slice) (b Slice)) (! (=> (bytesEq a b) (and (= (slen a) (slen b))
+  (forall ((j Int)) (! (=> (and (<= (soff a) j) (< j (+ (soff a) (slen a)))) (= (memB (sbase a) j) (memB (sbase b) (+ (- j (soff a)) (soff b))))) :pattern ((memB (sbase a) j))))
+  (forall ((j Int)) (! (=> (and (<= (soff b) j) (< j (+ (soff b) (slen b)))) (= (memB (sbase b) j) (memB (sbase a) (+ (- j (soff b)) (soff a))))) :pattern ((memB (sbase b) j)))))) :pattern ((bytesEq a b)))))
+(assert (forall ((a Slice) (b Slice)) (! (=> (and (= (slen a) (slen b)) (forall ((j Int)) (=> (and (<= (soff a) j) (< j (+ (soff a) (slen a)))) (= (memB (sbase a) j) (memB (sbase b) (+ (- j (soff a)) (soff b))))))) (bytesEq a b)) :pattern ((bytesEq a b)))))
+(assert (forall ((a Slice) (b Slice) (c Slice)) (! (=> (and (bytesEq a b) (bytesEq b c)) (bytesEq a c)) :pattern ((bytesEq a b) (bytesEq b c)))))
+(assert (forall ((a Slice) (b Slice) (c Slice)) (! (=> (and (bytesEq a b) (bytesEq a c)) (bytesEq b c)) :pattern ((bytesEq a b) (bytesEq a c)))))
+(assert (forall ((a Slice) (b Slice) (c Slice)) (! (=> (and (bytesEq b a) (bytesEq c a)) (bytesEq b c)) :pattern ((bytesEq b a) (bytesEq c a)))))
+(assert (forall ((a Slice) (b Slice)) (! (= (bytesEq a b) (bytesEq b a)) :pattern ((bytesEq a b)))))
+(assert (forall ((a Slice)) (! (bytesEq a a) :pattern ((bytesEq a a)))))
 (declare-fun dyntype (Int) Int)
 (declare-fun ifaceI (Int) Int)
 (declare-fun ifaceS (Int) Slice)
@@ -431,4 +440,45 @@ func (ex *Exec) frameFormula(st *State, keys []string) *T {
 		gs = append(gs, Forall([]string{"p"}, Imp(And(conds...), Eq(Select(cur, p), Select(old, p))), Select(cur, p)))
 	}
 	return And(gs...)
+}
+
+// verifyLemma turns a lemma (a closed formula over its parameters) into obligations.
+func verifyLemma(prog *Program, name string) (res *FuncResult) {
+	res = &FuncResult{Name: "lemma:" + name}
+	pd := prog.contracts.Lemmas[name]
+	if pd == nil {
+		res.Drift = append(res.Drift, "lemma "+name+" not found in the contract files")
+		return res
+	}
+	pkg := prog.pkgs[pd.Pkg]
+	ex := newExec(prog, pkg, nil, &FuncContract{Line: pd.Line})
+	ex.name = "lemma." + name
+	defer func() {
+		if r := recover(); r != nil {
+			res.Errors = append(res.Errors, fmt.Sprintf("engine panic in lemma %s: %v", name, r))
+			if os.Getenv("GOVC_PANIC") != "" {
+				panic(r)
+			}
+		}
+	}()
+	sc := &specCtx{ex: ex, st: ex.st, vars: map[string]Val{}, stateVars: map[string]stateVar{}, pkg: pkg.Types, where: pd.Line}
+	for i, n := range pd.ParamName {
+		t := ex.lookupType(pkg.Types, pd.ParamType[i])
+		c := Const("l."+sanitize(n), sortOf(t))
+		ex.declare(c.Op, nil, c.S)
+		ex.rawFact(ex.typeFact(t, c))
+		sc.vars[n] = Val{c, t}
+	}
+	g := ex.specBool(sc, pd.Body)
+	ex.assert("L", "lemma", g)
+	res.Obls = ex.obls
+	for _, n := range ex.declOrder {
+		if d := ex.decls[n]; d != "" {
+			res.Decls = append(res.Decls, d)
+		}
+	}
+	res.Facts = ex.facts
+	res.Errors = dedupe(ex.errs)
+	res.File = pd.Line
+	return res
 }
